@@ -21,7 +21,7 @@ CACHE = os.path.join(VERIF, ".cache")
 DRIVER_DIR = os.path.join(VERIF, "driver")
 DRIVER_BIN = os.path.join(DRIVER_DIR, "target", "debug", "exmex-facts")
 ALL_FEATURES = "partial,value,serde"
-RUSTFLAGS = "-Zmir-opt-level=0 -Awarnings -Coverflow-checks=on"
+RUSTFLAGS = "-Zmir-opt-level=0 -Awarnings -Coverflow-checks=on -Zalways-encode-mir"
 
 
 class ExtractionError(Exception):
